@@ -7,6 +7,7 @@ Driver entries for the quaternion utilities (C18), executed over `Float`.
   qlog  n q(4×n)                 -> "ok" branches 3n numbers          (quaternion_to_rotation_vector)
   qsum  m n q(4×m) r(3×n)        -> "ok" branches 4n numbers          (sum_quaternion_rotation_vector, column 0 of q)
   qdiff n m ql(4×n) qr(4×m)      -> "ok" branches 3n numbers          (diff_quaternion, column 0 of qr)
+  qsumchain n q(4) r(3×n)        -> "ok" branches 4n numbers          (n successive calls of sum_quaternion_rotation_vector, every state)
   qmean n w(n) q(4×n) v(4)       -> "ok" M(16, column-major) λ=vᵀMv  residual M v − λ v (4)  vᵀv
         (the eigenvector `v` returned by the implementation is an input: the model's `quatMean` takes
          the eigen-solver as a parameter; the driver evaluates the contract's quantities on `v` with the
@@ -55,6 +56,17 @@ def qdiff : R String := do
     let br := (List.finRange n).map fun j => quatLogBranch ((Q.ofCol ql j).mul (Q.ofCol qr 0).conj)
     pure (join ("ok" :: commas br :: outMatCM floatStr (diffBatch ql qr)))
 
+/-- `qsumchain n q(4) r(3×n)`: the model's `sumTrace` (every intermediate state of the history) -/
+def qsumchain : R String := do
+  let n ← nat
+  let q ← matCM flt 4 1
+  let r ← matCM flt 3 n
+  done
+  let rs := (List.finRange n).map fun j => V3.ofCol r j
+  let tr := sumTrace (Q.ofCol q 0) rs
+  let br := rs.map quatExpBranch
+  pure (join ("ok" :: commas br :: tr.flatMap fun p => [floatStr p.w, floatStr p.x, floatStr p.y, floatStr p.z]))
+
 def qmean : R String := do
   let n ← nat
   let w ← vec flt n
@@ -74,6 +86,7 @@ def handle (op : String) (args : List String) : Option String :=
   | "qsum" => some ((run qsum args).getD "bad-args")
   | "qdiff" => some ((run qdiff args).getD "bad-args")
   | "qmean" => some ((run qmean args).getD "bad-args")
+  | "qsumchain" => some ((run qsumchain args).getD "bad-args")
   | _ => none
 
 end BFL.DriverQuat
